@@ -165,6 +165,16 @@ def validate_raw(raw):
             tot = int(cnt.astype(object).sum()) if len(cnt) else 0
             if "sum" not in A or int(A["sum"]) != tot or float(A["sum"]) != float(tot):
                 errs.append(("attr", f"sum attr {A.get('sum')} but count column sums to {tot}"))
+        elif np.issubdtype(cnt.dtype, np.floating):
+            # float counts: exact float64 sum of the stored values (math.fsum); the recipes use values that
+            # are multiples of 1/4 of moderate size, for which every partial sum in any order is exact, so
+            # the tolerance only has to absorb nothing at all — 1e-9 relative is far below the 0.25 a
+            # truncation of one fractional value costs
+            import math
+            tot = math.fsum(float(x) for x in cnt)
+            got = A.get("sum")
+            if got is None or isinstance(got, str) or abs(float(got) - tot) > 1e-9 * max(1.0, abs(tot)):
+                errs.append(("attr", f"sum attr {got!r} but the float count column sums to {tot!r}"))
     # bin type / bin size against the table
     if not errs or all(c not in ("bins",) for c, _ in errs):
         starts = [int(x) for x in bt["start"]]
@@ -219,14 +229,23 @@ def extra_value(b1, b2):
     return b1 * 7 + b2 + 1
 
 
-def _frame(recs, extra=False, float_count=False):
-    a = np.array(recs, dtype=np.int64).reshape(-1, 3)
-    df = pd.DataFrame({"bin1_id": a[:, 0], "bin2_id": a[:, 1], "count": a[:, 2]})
-    if float_count:
-        df["count"] = df["count"].astype(np.float64)
+def _frame(recs, extra=False, count_dtype=None):
+    """pixel frame from [bin1, bin2, value] records; the count column gets the requested numpy dtype
+    (values in the recipe are always representable in it), int64 / float64 otherwise"""
+    b1 = np.array([r[0] for r in recs], dtype=np.int64)
+    b2 = np.array([r[1] for r in recs], dtype=np.int64)
+    vals = [r[2] for r in recs]
+    if count_dtype is None:
+        count_dtype = np.float64 if any(isinstance(v, float) for v in vals) else np.int64
+    df = pd.DataFrame({"bin1_id": b1, "bin2_id": b2, "count": np.array(vals, dtype=count_dtype)})
     if extra:
-        df["w"] = extra_value(a[:, 0], a[:, 1])
+        df["w"] = extra_value(b1, b2)
     return df
+
+
+def _count_dtype(step):
+    dt = ((step.get("opts") or {}).get("dtypes") or {}).get("count")
+    return np.dtype(dt) if dt else None
 
 
 def _opts(step):
@@ -269,8 +288,7 @@ def run_step(d, step):
             kw["triucheck"] = False
         kw.update(_opts(step))
         extra = "w" in (kw.get("columns") or [])
-        fl = str((kw.get("dtypes") or {}).get("count", "")).startswith("float")
-        frames = [_frame(c, extra, fl) for c in chunks]
+        frames = [_frame(c, extra, _count_dtype(step)) for c in chunks]
         if kind == "frame":
             create_cooler(_uri(d, step), bins, frames[0], **kw)
         elif kind == "dict":
@@ -315,6 +333,8 @@ def run_step(d, step):
             args = ["load", "-f", step["format"], "--chunksize", str(step["chunksize"])]
             if step.get("one_based"):
                 args.append("--one-based")
+            if step.get("count_as_float"):
+                args.append("--count-as-float")
             if not step["symm"]:
                 args.append("-N")
             else:
@@ -351,10 +371,11 @@ def run_step(d, step):
                               step["resolutions"], chunksize=step["chunksize"], nproc=step.get("nproc", 1), **_opts(step))
     elif op == "scool":
         bins = _bins(step["widths"])
-        cells = {k: _frame(v) for k, v in step["cells"].items()}
+        cells = {k: _frame(v, False, _count_dtype(step)) for k, v in step["cells"].items()}
         kw = dict(symmetric_upper=step["symm"])
         if not step["symm"]:
             kw["triucheck"] = False
+        kw.update(_opts(step))
         create_scool(os.path.join(d, step["out"]), bins, cells, ordered=True, **kw)
     else:
         raise AssertionError(op)
@@ -549,6 +570,42 @@ def gen_create_ensure_sorted(rng, out, how, api, symm=None, widths=None, shape=N
     chunks = [disorder(rng, ch, how) for ch in row_partition(rng, recs)]
     return {"op": "create", "out": out, "group": "", "append": False, "widths": widths, "symm": symm, "input": "ordered",
             "chunks": chunks, "ensure_sorted": True, "api": api, "disorder": how}
+
+
+# count dtypes the writer accepts, with values that are exactly representable in them; 8-bit kinds use
+# tiny values so that sums over merges stay inside the dtype (the writer refuses values that do not fit)
+COUNT_KINDS = {
+    "int8": lambda rng: rng.choice([-2, -1, 1, 2]),
+    "uint8": lambda rng: rng.randint(1, 2),
+    "int16": lambda rng: rng.choice([-1, 1]) * rng.randint(1, 40),
+    "uint16": lambda rng: rng.randint(1, 60),
+    "int32": lambda rng: rng.choice([-1, 1]) * rng.randint(1, 2 ** 18),
+    "uint32": lambda rng: rng.randint(1, 2 ** 20),
+    "int64": lambda rng: rng.choice([-1, 1]) * rng.randint(1, 2 ** 40),
+    "uint64": lambda rng: rng.randint(1, 2 ** 40),
+    "float32": lambda rng: rng.choice([-1, 1]) * rng.randint(1, 60) / 4,
+    "float64": lambda rng: rng.choice([0.25, 0.5, 1.75, -0.75, rng.randint(1, 4000) / 4, -rng.randint(1, 4000) / 4,
+                                       2.0 ** 40 + rng.randint(1, 7) / 4]),
+}
+
+
+def retype(rng, step, kind):
+    """give every record of a create / scool / load step a value of the count kind and request that dtype"""
+    gen = COUNT_KINDS[kind]
+    if step["op"] == "create":
+        step["chunks"] = [[[r[0], r[1], gen(rng)] for r in ch] for ch in step["chunks"]]
+    elif step["op"] == "scool":
+        step["cells"] = {k: [[r[0], r[1], gen(rng)] for r in v] for k, v in step["cells"].items()}
+    elif step["op"] == "load":
+        step["lines"] = [ln[:-1] + [gen(rng)] for ln in step["lines"]]
+        if kind.startswith("float"):
+            step["count_as_float"] = True
+        return step
+    o = dict(step.get("opts") or {})
+    o["dtypes"] = {**(o.get("dtypes") or {}), "count": kind}
+    step["opts"] = o
+    step["count_kind"] = kind
+    return step
 
 
 def gen_load(rng, out, group="", append=False):
